@@ -1,0 +1,146 @@
+//go:build verif
+// +build verif
+
+// Package verifhook provides observation and schedule-perturbation points for
+// external verification tooling. This is the implementation compiled in by the
+// `verif` build tag.
+package verifhook
+
+import (
+	"fmt"
+	"runtime"
+	"sync"
+	"sync/atomic"
+	"time"
+)
+
+var (
+	yieldOn   atomic.Bool
+	yieldRng  atomic.Uint64
+	signature atomic.Uint64
+	hits      atomic.Uint64
+
+	eventsOn atomic.Bool
+	evMutex  sync.Mutex
+	events   []Ev
+	evSeq    uint64
+
+	pointMutex sync.Mutex
+	points     = map[string]uint64{}
+)
+
+// MaxEvents bounds the in-memory event log
+const MaxEvents = 1 << 20
+
+// Ev is one recorded event
+type Ev struct {
+	Seq  uint64   `json:"seq"`
+	Kind string   `json:"kind"`
+	Args []string `json:"args,omitempty"`
+}
+
+func next() uint64 {
+	// splitmix64 over an atomic counter: thread safe without a lock
+	z := yieldRng.Add(0x9E3779B97F4A7C15)
+	z = (z ^ (z >> 30)) * 0xBF58476D1CE4E5B9
+	z = (z ^ (z >> 27)) * 0x94D049BB133111EB
+	return z ^ (z >> 31)
+}
+
+func hashString(s string) uint64 {
+	var h uint64 = 14695981039346656037
+	for i := 0; i < len(s); i++ {
+		h ^= uint64(s[i])
+		h *= 1099511628211
+	}
+	return h
+}
+
+// Yield is a schedule perturbation point: depending on the configured seed it
+// returns immediately, yields the processor or sleeps for a few microseconds.
+func Yield(point string) {
+	if !yieldOn.Load() {
+		return
+	}
+
+	hits.Add(1)
+	h := hashString(point)
+	for {
+		old := signature.Load()
+		if signature.CompareAndSwap(old, (old*1099511628211)^h) {
+			break
+		}
+	}
+
+	pointMutex.Lock()
+	points[point]++
+	pointMutex.Unlock()
+
+	r := next()
+	switch r & 7 {
+	case 0, 1, 2, 3:
+		return
+	case 4, 5:
+		runtime.Gosched()
+	case 6:
+		time.Sleep(time.Duration(1+(r>>8)%50) * time.Microsecond)
+	case 7:
+		time.Sleep(time.Duration(1+(r>>8)%500) * time.Microsecond)
+	}
+}
+
+// Event records an observation in the in-memory event log
+func Event(kind string, args ...any) {
+	if !eventsOn.Load() {
+		return
+	}
+
+	s := make([]string, len(args))
+	for i := range args {
+		s[i] = fmt.Sprint(args[i])
+	}
+
+	evMutex.Lock()
+	evSeq++
+	if len(events) < MaxEvents {
+		events = append(events, Ev{Seq: evSeq, Kind: kind, Args: s})
+	}
+	evMutex.Unlock()
+}
+
+// ConfigureYield switches schedule perturbation on or off and seeds it
+func ConfigureYield(on bool, seed uint64) {
+	yieldRng.Store(seed)
+	signature.Store(0)
+	hits.Store(0)
+	yieldOn.Store(on)
+}
+
+// Signature returns a hash of the global order in which Yield points were hit
+// since the last ConfigureYield, and the number of hits
+func Signature() (sig uint64, n uint64) {
+	return signature.Load(), hits.Load()
+}
+
+// Points returns how often each Yield point was hit since process start
+func Points() map[string]uint64 {
+	m := make(map[string]uint64)
+	pointMutex.Lock()
+	for k, v := range points {
+		m[k] = v
+	}
+	pointMutex.Unlock()
+	return m
+}
+
+// EnableEvents switches event recording on or off
+func EnableEvents(on bool) { eventsOn.Store(on) }
+
+// DrainEvents returns and clears the event log
+func DrainEvents() []Ev {
+	evMutex.Lock()
+	ev := events
+	events = nil
+	evMutex.Unlock()
+	return ev
+}
